@@ -19,6 +19,9 @@ import (
 	"golang.org/x/tools/go/ssa"
 )
 
+// lastSearchCompleted: the last call of searchInput ran all its cases without a hit.
+var lastSearchCompleted bool
+
 func (P *Program) searchInput(fn *ssa.Function, obligation string, cfg *RunCfg, cases int, seed int) []ReplayArg {
 	label := ""
 	if i := strings.Index(obligation, "#assert:"); i >= 0 {
@@ -52,6 +55,14 @@ func (P *Program) searchInput(fn *ssa.Function, obligation string, cfg *RunCfg, 
 			} else if sl, ok := t.Underlying().(*types.Slice); ok && types.Identical(sl.Elem(), types.Typ[types.Byte]) {
 				gens = append(gens, fmt.Sprintf("%s := verifGenBytes(rng, %d)", v, maxLen))
 				decls = append(decls, fmt.Sprintf(`{"name":%q,"type":"[]byte","hex":"%%x"}`, p.Name())+"|"+v)
+			} else if sl, ok := t.Underlying().(*types.Slice); ok {
+				ek, ok := intKindOf(sl.Elem())
+				if !ok {
+					return nil
+				}
+				et := types.TypeString(sl.Elem(), func(*types.Package) string { return "" })
+				gens = append(gens, fmt.Sprintf("%s := make([]%s, len(verifGenBytes(rng, %d))); for i := range %s { %s[i] = %s(verifGenInt(rng, %d)) }", v, et, maxLen, v, v, et, ek.bits))
+				decls = append(decls, fmt.Sprintf(`{"name":%q,"type":"[]%s","ints":"%%s"}`, p.Name(), et)+"|strings.Trim(strings.ReplaceAll(fmt.Sprint("+v+"), \" \", \",\"), \"[]\")")
 			} else {
 				return nil // parameter type the search cannot generate
 			}
@@ -171,6 +182,9 @@ func TestVerifSearch(t *testing.T) {
 	out, _ := cmd.CombinedOutput()
 	if os.Getenv("IKEVERIF_TRACESEARCH") != "" {
 		fmt.Fprintf(os.Stderr, "SEARCH OUTPUT:\n%s\n", tail(string(out), 3000))
+	}
+	if strings.Contains(string(out), "SEARCH-MISS") {
+		lastSearchCompleted = true // every case was executed on the real package, none fails
 	}
 	for _, l := range strings.Split(string(out), "\n") {
 		if strings.HasPrefix(l, "SEARCH-HIT: ") {
